@@ -136,7 +136,7 @@ def run_path(ex: Exec, C: FnContract, node, res: FnResult):
         ex.seg = ex.entry
         ex.frame_base = {'heap': {}, 'ghost': {}}
         env0 = dict(st.env)
-        for cl in C.requires:
+        for cl in list(C.requires) + list(C.assumes):
             ex.assume(ex.spec_bool(cl.expr, env0))
         I = ex.interference()
         if I is not None and C.suspends:
